@@ -167,7 +167,7 @@ def run_plans(prop, tier, seed, verdict, tree):
             if len(samples) < 2:
                 samples.extend(r.samples[:1])
     cov = verdict.coverage
-    n_eval = int(stats.get("appends", 0)) if prop == "C10" else int(stats.get("origins_checked", 0))
+    n_eval = int(stats.get("appends", 0)) if prop == "C10" else int(stats.get("copies_compared", 0)) if prop == "C17" else int(stats.get("origins_checked", 0))
     cov["evaluations"] = int(cov.get("evaluations", 0)) + n_eval
     cov["distinct_nontrivial"] = int(cov.get("distinct_nontrivial", 0)) + len(sigs)
     cov["samples"] = (cov.get("samples") or []) + samples
